@@ -537,7 +537,14 @@ func violationKey(r record) (string, string) {
 	what := ""
 	switch {
 	case r.Outcome == "opened" && !r.ContentOK:
-		got = "opened-content-differs"
+		// which kind of object failed first (the names given in doc.go)
+		place := "other"
+		if strings.HasPrefix(r.Detail, "writing modified a value of the caller") {
+			place = "caller-value-modified"
+		} else if f := strings.Fields(r.Detail); len(f) > 0 {
+			place = strings.TrimSuffix(f[0], ":")
+		}
+		got = "opened-content-differs/" + place
 		what = "content read back differs: " + r.Detail
 	case r.Outcome == "opened" && len(r.User) > 0 && (relation(r) == "other" || relation(r) == "none" || relation(r) == "unpreparable"):
 		got = "opened-by-wrong-password"
